@@ -1415,6 +1415,8 @@ func (h *ResponseHeader) setSpecialHeader(key, value []byte) bool {
 			if contentLength, err := parseContentLength(value); err == nil {
 				h.contentLength = contentLength
 				h.contentLengthBytes = append(h.contentLengthBytes[:0], value...)
+				// A length replaces an earlier SetContentLength(-1), as in SetContentLength.
+				h.h = delAllArgsStable(h.h, HeaderTransferEncoding)
 			}
 			return true
 		case caseInsensitiveCompare(strContentEncoding, key):
@@ -1481,6 +1483,8 @@ func (h *RequestHeader) setSpecialHeader(key, value []byte) bool {
 			if contentLength, err := parseContentLength(value); err == nil {
 				h.contentLength = contentLength
 				h.contentLengthBytes = append(h.contentLengthBytes[:0], value...)
+				// A length replaces an earlier SetContentLength(-1), as in SetContentLength.
+				h.h = delAllArgsStable(h.h, HeaderTransferEncoding)
 			}
 			return true
 		case caseInsensitiveCompare(strConnection, key):
